@@ -496,7 +496,7 @@ def _is_contig_mask(m):
 class SymInt(Sym):
     """mathematical integer term; `ub` = known exclusive upper bound of a value known to be >= 0
     (None = nothing known), `tz` = number of low bits known to be zero"""
-    __slots__ = ("t", "ub", "tz")
+    __slots__ = ("t", "ub", "tz", "nib")     # nib: the hex digit value this character code was rendered from (hexlify/format), if any
 
     def __init__(self, t, ub=None, tz=0):
         self.t = t
